@@ -9,7 +9,8 @@ NAME_POOL = [
 ]
 SAFE_NAME_POOL = ["ophelia", "claudius", "x", "dagger", "oph-elia", "a.b", "c+d", "a-b", "yorick", "skull", "b", "node1",
                   "cafe\u0301", "Laertes", "\U00020bb7\u91ce",
-                  "--start--", "x--start--"]        # (text that looks like an internal marker is still a name)
+                  "--start--", "x--start--",        # (text that looks like an internal marker is still a name)
+                  "constable", "nul", "aux.v2", "Thumbs.db", "lost+found", "@eaDir"]     # (so are names another operating system reserves)
 JUNK_SEGMENTS = ["", " ", "junk", "JUNK", "v1", "v0001", "sq1", "sh10", "hamlet ", " hamlet", "Hamlet", "hamle", "hamlett",
                  "a ", "as", "а", "w p", "wp", "ma.", ".ma", "m", "**", "*,*", "<", ">>", "*x", "x*", "a,s", "ma,mb",
                  "\t", "\n", "a\n", "\nhamlet", "ham\0let", "x" * 300, "v١٢٣", "{project}", "(a)", "a|s", ".*", "[^/]*",
